@@ -55,6 +55,31 @@ fn main() {
             let trace = args.iter().any(|a| a == "--trace");
             std::process::exit(supervisor::replay(def, Path::new(p), trace));
         }
+        Some("--bench") => {
+            // in-process, no fork: timing and profiling aid only
+            let part_name = args.get(2).cloned().unwrap_or_default();
+            let n: u64 = args.get(3).and_then(|s| s.parse().ok()).unwrap_or(100);
+            for (pi, p) in def.parts.iter().enumerate() {
+                if p.name() == part_name {
+                    let t0 = std::time::Instant::now();
+                    let mut steps = 0;
+                    let mut viol = 0;
+                    for idx in 0..n {
+                        let seed = supervisor::run_seed(base_seed, pi, idx);
+                        let plan = p.gen(seed, Tier::Quick);
+                        let rep = p.run(&plan, false);
+                        steps += rep.steps;
+                        if let Some(v) = rep.violation {
+                            viol += 1;
+                            if viol <= 3 {
+                                println!("idx {idx}: {} {} {}", v.invariant, v.shape, v.detail);
+                            }
+                        }
+                    }
+                    println!("{n} runs, {steps} steps, {viol} violations, {:.3} ms/run", t0.elapsed().as_secs_f64() * 1000.0 / n as f64);
+                }
+            }
+        }
         Some("--seed-plan") => {
             let idx: u64 = args.get(2).and_then(|s| s.parse().ok()).unwrap_or(0);
             let part_name = args.get(3).cloned();
